@@ -563,6 +563,18 @@ impl<T: PartialOrd + Copy> Interval<T> {
     {
         self.applied(&f, &f)
     }
+
+    /// Apply an order-reversing function to the bounds: the result is the mirrored interval.
+    fn applied_flipped<F>(&self, f: F) -> Self
+    where
+        F: Fn(T) -> T,
+    {
+        match self {
+            Interval::TwoSided(low, high) => Interval::TwoSided(f(*high), f(*low)),
+            Interval::LowerOneSided(high) => Interval::UpperOneSided(f(*high)),
+            Interval::UpperOneSided(low) => Interval::LowerOneSided(f(*low)),
+        }
+    }
 }
 
 #[cfg(feature = "approx")]
@@ -643,19 +655,37 @@ where
     }
 }
 
-impl<F: Mul<F, Output = F> + PartialOrd + Copy> Mul<F> for Interval<F> {
+impl<F: Mul<F, Output = F> + PartialOrd + Copy + num_traits::Zero> Mul<F> for Interval<F> {
     type Output = Self;
 
     fn mul(self, rhs: F) -> Self::Output {
-        self.applied_both(|x| x * rhs)
+        if rhs < F::zero() {
+            // multiplying by a negative value reverses the order
+            self.applied_flipped(|x| x * rhs)
+        } else if rhs > F::zero() {
+            self.applied_both(|x| x * rhs)
+        } else {
+            // multiplying by zero collapses the interval to a single point
+            match self {
+                Interval::TwoSided(low, high) => Interval::TwoSided(low * rhs, high * rhs),
+                Interval::UpperOneSided(x) | Interval::LowerOneSided(x) => {
+                    Interval::TwoSided(x * rhs, x * rhs)
+                }
+            }
+        }
     }
 }
 
-impl<F: Div<F, Output = F> + PartialOrd + Copy> Div<F> for Interval<F> {
+impl<F: Div<F, Output = F> + PartialOrd + Copy + num_traits::Zero> Div<F> for Interval<F> {
     type Output = Self;
 
     fn div(self, rhs: F) -> Self::Output {
-        self.applied_both(|x| x / rhs)
+        if rhs < F::zero() {
+            // dividing by a negative value reverses the order
+            self.applied_flipped(|x| x / rhs)
+        } else {
+            self.applied_both(|x| x / rhs)
+        }
     }
 }
 
@@ -679,7 +709,7 @@ impl<F: Neg<Output = F> + PartialOrd + Copy> Neg for Interval<F> {
     type Output = Self;
 
     fn neg(self) -> Self::Output {
-        self.applied_both(|x| -x)
+        self.applied_flipped(|x| -x)
     }
 }
 
